@@ -319,6 +319,8 @@ fn ambiguity_specs() -> Vec<(String, CmdSpec)> {
     let mut inst = CmdSpec::new("install");
     inst.aliases.push("i".into());
     inst.visible_aliases.push("in".into());
+    // a visible alias that shares no prefix with any other name: every prefix of it is unique
+    inst.visible_aliases.push("setup".into());
     c.subs.push(inst);
     // long flag subcommands: `--sync` (info) next to the alias `--synopsis` of `--look` (init)
     let mut info = CmdSpec::new("info");
@@ -332,7 +334,10 @@ fn ambiguity_specs() -> Vec<(String, CmdSpec)> {
     o.aliases.push("o".into());
     o.aliases.push("out".into());
     c.args.push(o);
-    c.args.push(ArgSpec::flag("outline", None, Some("outline")));
+    let mut outline = ArgSpec::flag("outline", None, Some("outline"));
+    outline.visible_aliases.push("paint".into());
+    outline.aliases.push("brush".into());
+    c.args.push(outline);
     v.push(("sub install (aliases i, in) next to info/init; long output (aliases o, out) next to outline".to_string(), c));
     v
 }
@@ -342,7 +347,7 @@ fn judge_ambiguity(spec: &CmdSpec, cmd: &clap::Command, h: &mut Hist) -> Vec<(St
     // long prefixes
     let mut names: Vec<(String, String)> = vec![]; // (key, arg id)
     for a in &spec.args {
-        for k in a.long.iter().chain(a.aliases.iter()) {
+        for k in a.long.iter().chain(a.aliases.iter()).chain(a.visible_aliases.iter()) {
             names.push((k.clone(), a.id.clone()));
         }
     }
